@@ -42,12 +42,29 @@ def generic_conditions(fx):
         b = fx.fn(fn)
         ev = sym.Eval(fx, inline_depth=0)
         ev.function(b)
+        import re as _re
         for n in names:
-            hit = [o for o in ev.out if o[2][0] == "write" and o[2][1] == "({%s})" % n]
-            neg = [o for o in ev.out if o[2][0] == "write" and o[2][1] == "{%s}" % n]
-            if len(hit) != 1 or len(neg) != 1 or len(hit[0][0]) != 1 or hit[0][0][0][1] is not True or neg[0][0] != ((hit[0][0][0][0], False),):
+            # writes of this operand, with and without parentheses: identified by the argument, not by the name used inside the template
+            # (the write may sit in an extracted helper, whose parameters are substituted by inlining)
+            def is_operand(o):
+                return o[2][0] == "write" and len(o[2][2]) == 1 and o[2][2][0] == ("param", n)
+            hit = [o for o in ev.out if is_operand(o) and _re.fullmatch(r"\(\{\w*\}\)", o[2][1])]
+            neg = [o for o in ev.out if is_operand(o) and _re.fullmatch(r"\{\w*\}", o[2][1])]
+            conds = set()
+            ok = bool(hit) and len(hit) == len(neg)
+            for h in hit:
+                if not h[0] or h[0][-1][1] is not True:
+                    ok = False
+                    break
+                c = h[0][-1][0]
+                prefix = h[0][:-1]
+                if not any(g[0] == prefix + ((c, False),) for g in neg):
+                    ok = False
+                    break
+                conds.add(c)
+            if not ok or len(conds) != 1:
                 raise AnalysisGap("%s: parenthesisation condition for `%s` not of the form if C {({x})} else {x}" % (fn, n))
-            out[n] = hit[0][0][0][0]
+            out[n] = conds.pop()
     return out
 
 
